@@ -2,6 +2,7 @@
 the definitions as Rust into harness/corpus_c17/src/generated.rs, cargo compiles the corpus (the proc-macro
 #[derive(AvroSchema)] runs on every definition), the corpus binary executes every scenario on the real crate, and
 Trace_Derive.tla judges the recorded executions."""
+import hashlib
 import json
 import os
 import random
@@ -288,7 +289,6 @@ def run(prop, tier, seed, replay=None):
     raw = sorted(set(r.tagged("SCN")) | set(ctx_scns))
     if len(raw) < 150:
         raise vf.ToolError("MC_DeriveModel emitted too few scenarios (vacuous run)")
-    import hashlib
     scns = []
     for s in raw:
         j = json.loads(s)
@@ -306,7 +306,8 @@ def run(prop, tier, seed, replay=None):
     if replay:
         payload = json.loads(Path(replay).read_text())["payload"]
         want = json.dumps(payload["scenario"]["defs"], sort_keys=True)
-        scns = [s for s in scns if json.dumps(s["defs"], sort_keys=True) == want] or [dict(payload["scenario"], name="s0000")]
+        scns = [s for s in scns if json.dumps(s["defs"], sort_keys=True) == want] \
+            or [dict(payload["scenario"], name="s" + hashlib.sha1(want.encode()).hexdigest()[:10])]
     import fcntl
     lockf = open(vf.WORK / ".corpus.lock", "w")
     fcntl.flock(lockf, fcntl.LOCK_EX)
